@@ -57,7 +57,7 @@ theorem processLogHonoursIsOrder_expected : processLogHonoursIsOrder = true := b
 
 theorem src_processLog_expected : src_processLog = "{ mmDir := filepath.Join(GetDir(engineType, shardDir), info.Name) if !info.IsOrder { mmDir = filepath.Join(mmDir, unorderedDir) } dirs, err := fileops.ReadDir(mmDir) if err != nil { return err } newFileExist, oldFileExist, renameFile := getProcessLogFuncs(dirs, mmDir, lockPath) n := 0 for i := range info.NewFile { if newFileExist(info.NewFile[i]) { n++ } } if n != len(info.NewFile) { count := 0 for i := range info.OldFile { if oldFileExist(info.OldFile[i]) { count++ } } if count == len(info.OldFile) { for i := range info.OldFile { oName := info.OldFile[i] if err := renameFile(oName + tmpFileSuffix); err != nil { return err } } return nil } err = fmt.Errorf(\"invalid compact log file, name:%v, oldFiles:%v, newFiles:%v, order:%v, dirs:%v\", info.Name, info.OldFile, info.NewFile, info.IsOrder, dirs) return err } err = processFiles(info, oldFileExist, renameFile, mmDir, lockPath) if err != nil { return err } return nil }" := by rfl
 
-theorem src_getProcessLogFuncs_expected : src_getProcessLogFuncs = "{ newFileExist := func(newFile string) bool { normalName := newFile[:len(newFile)-len(tmpFileSuffix)] for i := range dirs { name := dirs[i].Name() if name == normalName || newFile == name { return true } } return false } oldFileExist := func(oldFile string) bool { for i := range dirs { name := dirs[i].Name() tmp := oldFile + tmpFileSuffix if name == oldFile || tmp == name { return true } } return false } renameFile := func(nameInLog string) error { for i := range dirs { name := dirs[i].Name() if nameInLog == name { lock := fileops.FileLockOption(*lockPath) normalName := nameInLog[:len(nameInLog)-len(tmpFileSuffix)] oldName := filepath.Join(mmDir, nameInLog) newName := filepath.Join(mmDir, normalName) return fileops.RenameFile(oldName, newName, lock) } } return nil } return newFileExist, oldFileExist, renameFile }" := by rfl
+theorem src_getProcessLogFuncs_expected : src_getProcessLogFuncs = "{ newFileExist := func(newFile string) bool { normalName := newFile if IsTempleFile(newFile) { normalName = newFile[:len(newFile)-len(tmpFileSuffix)] } for i := range dirs { name := dirs[i].Name() if name == normalName || newFile == name { return true } } return false } oldFileExist := func(oldFile string) bool { for i := range dirs { name := dirs[i].Name() tmp := oldFile + tmpFileSuffix if name == oldFile || tmp == name { return true } } return false } renameFile := func(nameInLog string) error { for i := range dirs { name := dirs[i].Name() if nameInLog == name { if !IsTempleFile(nameInLog) { return nil } lock := fileops.FileLockOption(*lockPath) normalName := nameInLog[:len(nameInLog)-len(tmpFileSuffix)] oldName := filepath.Join(mmDir, nameInLog) newName := filepath.Join(mmDir, normalName) return fileops.RenameFile(oldName, newName, lock) } } return nil } return newFileExist, oldFileExist, renameFile }" := by rfl
 
 theorem src_processFiles_expected : src_processFiles = "{ var err error for i := range info.NewFile { if err = renameFile(info.NewFile[i]); err != nil { return err } } for i := range info.OldFile { oldName := info.OldFile[i] if oldFileExist(oldName) { fName := filepath.Join(mmDir, oldName) if _, err = fileops.Stat(fName); os.IsNotExist(err) { continue } lock := fileops.FileLockOption(*lockPath) if err = fileops.Remove(fName, lock); err != nil { return err } } } return err }" := by rfl
 
